@@ -86,6 +86,12 @@ var c13Fragments = []fragment{
 	{`foreach # in q { w = 1; }`, true, "illegal character as loop variable"},
 	{`++;`, true, "postfix operator without a variable"}, {`5++;`, true, "postfix operator on a non-variable"}, {`q[0]--;`, true, "postfix operator on a non-variable"},
 	{`foreach z in q w v1 = 1; }`, true, "foreach body without an opening brace"}, {`foreach z in q ( v1 = 1; }`, true, "foreach body without an opening brace"},
+	{`function @() { w = 1; }`, true, "illegal character as function name"}, {`function 5() { w = 1; }`, true, "number as function name"},
+	{`function +(z) { w = 1; }`, true, "operator as function name"},
+	{`q.(3 += 4)`, false, "compound assignment to a non-variable, as member name"}, {`q.[g() = 1]`, false, "assignment to a non-variable, as member name"},
+	{`q.(w ? 1 ? 2 : 3 : 4)`, false, "nested ternary, as member name"},
+	{`(3 += 4)(1)`, false, "compound assignment to a non-variable, as callee"}, {`(q ? w ? 1 : 2 : 3)(1)`, false, "nested ternary, as callee"},
+	{`[3 -= 4](w)`, false, "compound assignment to a non-variable, inside a callee"},
 	{`)`, true, "stray closer"}, {`]`, true, "stray closer"}, {`}`, true, "stray closer"},
 }
 
